@@ -188,6 +188,61 @@ type Tagged struct {
 	} `json:"inner"`
 }
 
+// Twins: DIFFERENT anonymous struct types under equally named fields (Go name and JSON name) in different parents, at
+// different depths, below a slice, a pointer and a map.
+type Twins struct {
+	Primary struct {
+		Limits struct {
+			Max int `json:"max"`
+		} `json:"limits"`
+	} `json:"primary"`
+	Backup struct {
+		Limits struct {
+			Codes []string `json:"codes"`
+		} `json:"limits"`
+		Spare []struct {
+			Limits *struct {
+				Ratio float64 `json:"ratio"`
+			} `json:"limits,omitempty"`
+		} `json:"spare"`
+	} `json:"backup"`
+	Limits map[string]struct {
+		Flag bool `json:"flag"`
+	} `json:"limits"`
+}
+
+// Vocab: JSON field names taken from the JSON-Schema vocabulary, at two depths and below a slice and a map (property
+// names are data: nothing on the way from the generator to the client's tools/list result may treat them as keywords).
+type VocabInner struct {
+	Definitions map[string]string `json:"definitions"`
+	Defs        []string          `json:"$defs,omitempty"`
+	Ref         string            `json:"$ref"`
+	Properties  map[string]int    `json:"properties"`
+	Required    []string          `json:"required"`
+	Type        string            `json:"type"`
+}
+type Vocab struct {
+	Definitions map[string]string     `json:"definitions"`
+	Defs        VocabInner            `json:"$defs"`
+	Ref         string                `json:"$ref"`
+	Properties  map[string]VocabInner `json:"properties"`
+	Required    []string              `json:"required"`
+	Type        string                `json:"type"`
+	Items       []VocabInner          `json:"items"`
+	Enum        []string              `json:"enum,omitempty"`
+	AddProps    bool                  `json:"additionalProperties"`
+	AnyOf       []int                 `json:"anyOf"`
+	Default     *string               `json:"default,omitempty"`
+	Schema      string                `json:"$schema"`
+	Title       string                `json:"title"`
+	Description string                `json:"description"`
+	Nested      struct {
+		Definitions struct {
+			Definitions int `json:"definitions"`
+		} `json:"definitions"`
+	} `json:"nested"`
+}
+
 type corpusEntry struct {
 	name      string
 	t         reflect.Type
@@ -216,5 +271,7 @@ func corpus() []corpusEntry {
 		{"Raw", reflect.TypeOf(Raw{}), "bytes", false},
 		{"Outer", reflect.TypeOf(Outer{}), "embedded", false},
 		{"Tagged", reflect.TypeOf(Tagged{}), "js-tags", false},
+		{"Twins", reflect.TypeOf(Twins{}), "", false},
+		{"Vocab", reflect.TypeOf(Vocab{}), "", false},
 	}
 }
